@@ -275,7 +275,7 @@ func ops() []op {
 		out = append(out, ruleOp(fi, 0, "drop one annotation of several", func(r *rule) {
 			switch {
 			case len(r.anns) > 1:
-				r.anns = r.anns[1:]
+				r.anns = r.anns[:len(r.anns)-1]
 			case r.kind == "alerting":
 				r.anns = append(r.anns, [2]string{fmt.Sprintf("second%d", len(r.anns)), "annotation"})
 			default:
